@@ -85,9 +85,7 @@ func (s *Solver) preamble() {
 		}
 	}
 	fmt.Fprintf(s.in, "(set-option :produce-models true)\n")
-	if strings.Contains(s.Path, "cvc5") {
-		fmt.Fprintf(s.in, "(set-logic QF_BV)\n")
-	}
+	fmt.Fprintf(s.in, "(set-logic QF_BV)\n")
 }
 
 func (s *Solver) Close() {
